@@ -561,6 +561,16 @@ func (u *Unit) specCall(e *SExpr, ctx *specCtx) (Val, error) {
 			return Val{}, err
 		}
 		return Val{T: and(eq(sx("s_arr", a.T), sx("s_arr", b.T)), eq(sx("s_off", a.T), sx("s_off", b.T))), Ty: tBoolT}, nil
+	case "disjointarr":
+		a, err := arg(0)
+		if err != nil {
+			return Val{}, err
+		}
+		b, err := arg(1)
+		if err != nil {
+			return Val{}, err
+		}
+		return Val{T: or(eq(sx("s_arr", a.T), "0"), not(eq(sx("s_arr", a.T), sx("s_arr", b.T)))), Ty: tBoolT}, nil
 	case "allocated":
 		x, err := arg(0)
 		if err != nil {
@@ -744,6 +754,39 @@ func (u *Unit) specCall(e *SExpr, ctx *specCtx) (Val, error) {
 		return Val{T: eq(now.T, was.T), Ty: tBoolT}, nil
 	}
 	// user spec function (macro expansion)
+	if sf, ok := u.eng.contracts.Specs[e.Name]; ok && sf.Uninterp {
+		var sorts, terms []string
+		for i, p := range sf.Params {
+			v, err := arg(i)
+			if err != nil {
+				return Val{}, err
+			}
+			ty, srt, err := u.resolveSpecType(p.Type, ctx)
+			if err != nil {
+				return Val{}, err
+			}
+			if ty != nil && srt == sAny && v.sort(u) != sAny && v.Ty != nil {
+				v = Val{T: u.box(ctx.cur, v), S: sAny}
+			}
+			sorts = append(sorts, srt)
+			terms = append(terms, v.T)
+		}
+		rty, rs, err := u.resolveSpecType(sf.Ret, ctx)
+		if err != nil {
+			return Val{}, err
+		}
+		fn := "uf_" + sanitize(sf.Name)
+		u.reg.declFun(fn, strings.Join(sorts, " "), rs)
+		u.note("uninterpreted specification function: " + sf.Name)
+		if len(terms) == 0 {
+			return Val{T: "(" + fn + ")", Ty: rty, S: rs}, nil
+		}
+		r := Val{T: sx(fn, terms...), Ty: rty}
+		if rty == nil {
+			r.S = rs
+		}
+		return r, nil
+	}
 	if sf, ok := u.eng.contracts.Specs[e.Name]; ok {
 		if ctx.depth > 20 {
 			return Val{}, fmt.Errorf("spec function %s: expansion too deep (recursive?)", e.Name)
@@ -824,8 +867,7 @@ func (u *Unit) specAddr(e *SExpr, ctx *specCtx) (string, error) {
 						fn += fmt.Sprintf("_%d", pi)
 						ft = fst.Field(pi).Type()
 					}
-					u.reg.declFun(fn, "Int", sInt)
-					return sx(fn, base.T), nil
+					return u.addrTerm(fn, []string{base.T}), nil
 				}
 			}
 			cur = cur.Args[0]
